@@ -451,12 +451,6 @@ class Compiler(object):
                 if resolved_member['type'] == 'OCTET STRING':
                     self.pre_process_default_value_octet_string(member)
 
-                if resolved_member['type'] == 'ENUMERATED' and self._numeric_enums:
-                    for key, value in resolved_member['values']:
-                        if key == member['default']:
-                            member['default'] = value
-                            break
-
     def pre_process_default_value_bit_string(self, member, resolved_member):
         default = member['default']
 
@@ -895,7 +889,8 @@ class Compiler(object):
 
         if 'default' in member:
             compiled_member = self.copy(compiled_member)
-            compiled_member.set_default(member['default'])
+            compiled_member.set_default(self.get_default_value(member,
+                                                               module_name))
 
         if 'size' in member:
             compiled_member = self.copy(compiled_member)
@@ -1080,6 +1075,27 @@ class Compiler(object):
         for member in object_class_descriptor['members']:
             if member['name'] == member_name:
                 return member['type'], module_name
+
+    def get_default_value(self, member, module_name):
+        """Returns the default value of given member. Enumeration names are
+        converted to numbers if numeric enums are used. The conversion
+        is not stored in the specification, as it may be compiled
+        again without numeric enums.
+
+        """
+
+        default = member['default']
+
+        if self._numeric_enums:
+            resolved_member = self.resolve_type_descriptor(member,
+                                                           module_name)
+
+            if resolved_member['type'] == 'ENUMERATED':
+                for value in resolved_member['values']:
+                    if value != EXTENSION_MARKER and value[0] == default:
+                        return value[1]
+
+        return default
 
     def get_compiled_type(self, name, type_name, module_name):
         try:
